@@ -205,8 +205,8 @@ impl Writer {
 
     // keep track of whether the current output line ends inside a line comment after `text` was appended
     fn track_line_comment(&mut self, text: &str) {
-        if let Some(pos) = text.rfind('\n') {
-            self.line_comment_open = ends_with_line_comment(&text[pos + 1..]);
+        if text.contains('\n') {
+            self.line_comment_open = ends_with_line_comment(text);
         } else if !self.line_comment_open {
             self.line_comment_open = ends_with_line_comment(text);
         }
@@ -287,15 +287,22 @@ impl TaggedItemInfo<'_> {
 }
 
 // check if a piece of output text (a comment or the text of a sub-element) ends inside a line comment ("// ...")
-fn ends_with_line_comment(lastline: &str) -> bool {
-    let lastline = lastline.as_bytes();
+// The text is scanned from its beginning - it always starts outside of any comment or string - because the last line
+// alone cannot tell whether it starts inside a block comment: " *//* x */" closes one block comment and opens another.
+fn ends_with_line_comment(text: &str) -> bool {
+    let text = text.as_bytes();
     let mut in_string = false;
     let mut in_block_comment = false;
+    let mut in_line_comment = false;
     let mut idx = 0;
-    while idx < lastline.len() {
-        let c = lastline[idx];
-        let next = lastline.get(idx + 1).copied();
-        if in_string {
+    while idx < text.len() {
+        let c = text[idx];
+        let next = text.get(idx + 1).copied();
+        if in_line_comment {
+            if c == b'\n' {
+                in_line_comment = false;
+            }
+        } else if in_string {
             if c == b'\\' {
                 idx += 1;
             } else if c == b'"' {
@@ -312,11 +319,12 @@ fn ends_with_line_comment(lastline: &str) -> bool {
             in_block_comment = true;
             idx += 1;
         } else if c == b'/' && next == Some(b'/') {
-            return true;
+            in_line_comment = true;
+            idx += 1;
         }
         idx += 1;
     }
-    false
+    in_line_comment
 }
 
 fn apply_position_restrictions(group: &mut [TaggedItemInfo]) {
